@@ -133,10 +133,6 @@ def compare(case, impl, model):
     return base.compare(case, impl, model)
 
 
-def finding_key(case, impl, model):
-    return base.finding_key(case, impl, model)
-
-
 # ------------------------------------------------------------------ the cutoff x threads matrix
 def _run(exe, lines, env, timeout):
     data = ("\n".join(lines) + "\n").encode()
@@ -171,13 +167,20 @@ def extra_checks(ctx):
     tier = ctx["tier"]
     exes = ctx["exes"]
     oracle = ctx["oracle"]
-    kf = {k[1]: k[2] for k in ctx["kf"]}
     violations = []
     info = {"env_matrix": {"env_values": ["<unset>" if v is None else v for v in ENV_VALUES], "threads": THREADS,
                            "runs": 0, "cases": 0, "mismatches": 0, "hang_probe": None}}
     if not exes or not oracle:
         return {"violations": violations, "info": info}
     rp = _replay_request()
+    corpus_builds = []
+    cdir = os.path.join(ctx["root"], "corpus", ID)
+    if os.path.isdir(cdir):
+        for f in sorted(os.listdir(cdir)):
+            for ln in open(os.path.join(cdir, f)):
+                ln = ln.strip()
+                if ln.startswith("build "):
+                    corpus_builds.append(ln)
     nmax = 2 ** 16 if tier == "thorough" else 2 ** 12
     model_cache = {}      # case text -> model output (the model does not depend on the thread count)
 
@@ -208,13 +211,6 @@ def extra_checks(ctx):
         with concurrent.futures.ThreadPoolExecutor(max_workers=8) as ex:
             list(ex.map(lambda cu: model_fill([c for _, c in build_lines(cu, nmax, True) + HONEST]), cutoffs))
 
-    def known(key, case, desc_extra=""):
-        if key in kf:
-            hit = ctx["kf_hit"].setdefault(key, [kf[key], 0, case])
-            hit[1] += 1
-            return True
-        return False
-
     def check_env(prof, v, threads, lines_only=None):
         cutoff = effective_cutoff(v)
         env = {"RAYON_NUM_THREADS": threads}
@@ -222,24 +218,20 @@ def extra_checks(ctx):
             env[ENV_NAME] = v
         envdesc = {ENV_NAME: "<unset>" if v is None else v, "RAYON_NUM_THREADS": threads}
         exe = exes[prof]
-        if cutoff == 0:
-            # the loop guard `count >= 0` cannot fail on the pinned tree: probe with the smallest tree first
+        if cutoff == 0 and lines_only is None:
+            # `while count >= 0` must not spin: probe with the smallest tree first; a timeout is the failure
             probe = ["0 build 0 1 s0"]
             res, dt = _run(exe, probe, env, HANG_TIMEOUT)
             info["env_matrix"]["hang_probe"] = "timeout after %ds" % HANG_TIMEOUT if res is None else "returned in %.2fs" % dt
             if res is None:
                 m = model_for(0, probe)
-                mtxt = (m or {}).get("0", "")
-                key = "merkle-cutoff-zero-nontermination" if mtxt.startswith("FUEL ## FUEL ## T ") else None
-                if not (key and known(key, "build 0 1 s0 [%s=0]" % ENV_NAME)):
-                    violations.append({"kind": "nontermination", "case": "build 0 1 s0", "profile": prof, "env": envdesc,
-                                       "impl": "no result within %d s" % HANG_TIMEOUT, "model": mtxt,
-                                       "why": "CpuParallel::from_digests does not return when the cutoff is 0 "
-                                              "(model: OutOfFuel for every fuel; specification: the tree)",
-                                       "finding_key": "merkle-cutoff-zero-nontermination"})
+                violations.append({"kind": "nontermination", "case": "build 0 1 s0", "profile": prof, "env": envdesc,
+                                   "impl": "no result within %d s" % HANG_TIMEOUT, "model": (m or {}).get("0", ""),
+                                   "why": "CpuParallel::from_digests does not return when the cutoff is 0"})
                 return "hung"
         cl = lines_only if lines_only is not None else build_lines(cutoff, nmax, dense=(prof == "release" and threads == "2"))
         if lines_only is None:
+            cl = [("corpus", c) for c in corpus_builds if int(c.split()[1]) == cutoff] + cl
             # a few proofs as well, so that the whole pipeline runs under this configuration
             cl = cl + HONEST
         lines = ["%d %s" % (i, c) for i, (_, c) in enumerate(cl)]
@@ -257,9 +249,6 @@ def extra_checks(ctx):
                 a, b = res.get(str(i)), m.get(str(i))
                 why = "no output" if a is None or b is None else compare(c, a, b)
                 if why:
-                    key = finding_key(c, a or "", b or "")
-                    if key and known(key, c):
-                        continue
                     info["env_matrix"]["mismatches"] += 1
                     if len(violations) < 20:
                         violations.append({"kind": "impl-vs-model", "case": c, "profile": prof, "env": envdesc,
